@@ -29,6 +29,9 @@ Proof. vm_compute. reflexivity. Qed.
 Lemma gen_doc_order_ok : forallb tool_doc_order_ok gen_tools = true.
 Proof. vm_compute. reflexivity. Qed.
 
+Lemma gen_geo_ordering_ok : forallb geo_ordering_ok gen_tools = true.
+Proof. vm_compute. reflexivity. Qed.
+
 Lemma in_gen {P : tool -> bool} t : forallb P gen_tools = true -> In t gen_tools -> P t = true.
 Proof. intros H Hin. rewrite forallb_forall in H. auto. Qed.
 
@@ -480,4 +483,31 @@ Proof.
   destruct (Nat.eqb_spec (num_args argv i) (List.length (doc_full b))) as [E|E].
   - apply G; auto.
   - destruct Hn as [Hn|Hn]; [contradiction|]. apply G; auto.
+Qed.
+
+(* ---------------------------------------------------------------- -old-ordering reaches every Geometry *)
+Lemma gen_flag_vars_unique :
+  forallb (fun t0 => forallb (fun d1 => forallb (fun d2 => implb (tok_eqb (d_var d2) (d_var d1)) (tok_eqb (d_name d2) (d_name d1)))
+                                         (flag_decls t0)) (flag_decls t0)) gen_tools = true.
+Proof. vm_compute. reflexivity. Qed.
+
+Lemma old_ordering_reaches_every_geometry t b argv o :
+  In t gen_tools -> ordering_var t <> None -> In b (t_blocks t) -> In o (block_orderings t argv b) ->
+  o = bool_value argv tok_old_ordering false.
+Proof.
+  intros Ht Hv Hb Ho. pose proof (in_gen t gen_geo_ordering_ok Ht) as H. unfold geo_ordering_ok in H.
+  unfold ordering_var in *.
+  destruct (find (fun d => tok_eqb (d_name d) tok_old_ordering) (flag_decls t)) as [d|] eqn:F; [|contradiction].
+  rewrite forallb_forall in H. specialize (H b Hb). rewrite forallb_forall in H.
+  unfold block_orderings in Ho. apply in_map_iff in Ho as (g & <- & Hg). specialize (H g Hg).
+  apply tok_eqb_eq in H. subst g. unfold flag_value.
+  apply find_some in F as [Hin Hn]. apply tok_eqb_eq in Hn.
+  destruct (find (fun d0 => tok_eqb (d_var d0) (d_var d)) (flag_decls t)) as [d'|] eqn:F'.
+  - apply find_some in F' as [Hin' Hn'].
+    pose proof gen_flag_vars_unique as Huniq.
+    rewrite forallb_forall in Huniq. specialize (Huniq t Ht). rewrite forallb_forall in Huniq. specialize (Huniq d Hin).
+    rewrite forallb_forall in Huniq. specialize (Huniq d' Hin'). rewrite Hn' in Huniq. simpl in Huniq.
+    apply tok_eqb_eq in Huniq. rewrite Huniq, Hn. reflexivity.
+  - exfalso. pose proof (find_none _ _ F' d Hin) as X. cbv beta in X.
+    rewrite tok_eqb_refl in X. discriminate.
 Qed.
